@@ -85,8 +85,14 @@ def check_ports(arg):
                 operands.append(t)
             if toks[i] == "eq" and len(operands) > max(count, 1):
                 bad("limit", f"line {l!r} lists {len(operands)} ports, limit {count}")
-            if toks[i] == "eq" and platform == "nxos" and len(operands) > 1 and False:
-                bad("nxos", "multi-port eq on nxos")
+            if toks[i] in ("eq", "neq") and platform == "nxos" and len(operands) > 1:
+                bad("platform-syntax", f"line {l!r} lists {len(operands)} ports after `{toks[i]}`: NX-OS takes one")
+            # port keywords must be the platform's own
+            from cisco_acl.port_name import PortName
+            known = PortName(protocol="tcp", platform=platform, version="0").names()
+            for t in operands:
+                if not t.isdigit() and t not in known:
+                    bad("platform-syntax", f"line {l!r} uses the port keyword {t!r}, which {platform} does not have")
             if policy is False and toks[i] == "range" and op != "range":
                 bad("policy", f"port_range=False but line {l!r} uses `range`")
     if not fails and frozenset(union) != want and op == "none":
@@ -183,6 +189,12 @@ def main(chk):
                         if platform == "nxos" and i % 4:
                             continue
                         cases.append((r, side, op, count, policy, platform, bool(i % 2)))
+    # ports whose keyword differs between the platforms, rendered as names
+    for r in ("135", "37,514", "135-136", "3949", "15001,15002", "22,135"):
+        for platform in ("ios", "nxos"):
+            for count in (1, 2):
+                cases.append((r, "dst", "none", count, True, platform, False))
+                cases.append((r, "src", "none", count, False, platform, False))
     # requests that contain the full range (the dependency answers those in a brief form)
     for r in (("1-65535", "1-65535,5", "5,1-65535", "2-65535", "1-65534") if chk.tier == "thorough" else ("1-65535,5", "1-65535")):
         for policy in (True, False):
